@@ -96,34 +96,12 @@ Theorem Params_Validate_tie p thr frac w mm : 0 <= p < two64 -> 0 <= w < two64 -
     valid_params p w mm && (500000000000000000 <=? thr) && (thr <=? prec) && (0 <=? frac) && (frac <=? prec).
 Proof.
   intros Hp Hw Hm. unfold Params_Validate, valid_params, max_vote_period, dec_of_int, prec.
-  rewrite !gtb_ltb, !geb_leb.
-  change (9223372036854775807 / 2) with 4611686018427387903.
-  change (50 * 10000000000000000) with 500000000000000000.
-  change (1 * 1000000000000000000) with 1000000000000000000.
-  destruct (p =? 0) eqn:E0.
-  { assert (p = 0) by lia. subst. reflexivity. }
-  destruct (4611686018427387903 <? p) eqn:E1.
-  { replace (p <=? 4611686018427387903) with false by lia. rewrite Bool.andb_false_r. reflexivity. }
-  destruct (thr <? 500000000000000000) eqn:E2.
-  { replace (500000000000000000 <=? thr) with false by lia. rewrite !Bool.andb_false_r. reflexivity. }
-  destruct (1000000000000000000 <? thr) eqn:E3.
-  { replace (thr <=? 1000000000000000000) with false by lia. rewrite !Bool.andb_false_r. reflexivity. }
-  destruct (0 <? frac) eqn:E4'; destruct (frac <? 0) eqn:E4; try lia.
-  all: try (replace (0 <=? frac) with false by lia; rewrite !Bool.andb_false_r; reflexivity).
-  all: destruct (1000000000000000000 <? frac) eqn:E5;
-    try (replace (frac <=? 1000000000000000000) with false by lia; rewrite !Bool.andb_false_r; reflexivity).
-  all: replace (1 <=? p) with true by lia; replace (p <=? 4611686018427387903) with true by lia;
-       replace (500000000000000000 <=? thr) with true by lia; replace (thr <=? 1000000000000000000) with true by lia;
-       replace (0 <=? frac) with true by lia; replace (frac <=? 1000000000000000000) with true by lia;
-       rewrite ?Bool.andb_true_r; cbn [andb].
-  all: destruct (w <=? 0) eqn:E6; [replace (1 <=? w) with false by lia; reflexivity|].
-  all: replace (1 <=? w) with true by lia; replace (w <? two64) with true by lia; cbn [andb].
-  all: destruct (w <? p) eqn:E7; [replace (p <=? w) with false by lia; reflexivity|].
-  all: replace (p <=? w) with true by lia; cbn [andb].
-  all: destruct (w mod p =? 0) eqn:E8; cbn [negb andb]; [|reflexivity].
-  all: destruct (mm <=? 0) eqn:E9; [replace (1 <=? mm) with false by lia; reflexivity|].
-  all: replace (1 <=? mm) with true by lia; cbn [andb].
-  all: destruct (w <=? mm) eqn:E10; [replace (mm <? w) with false by lia|replace (mm <? w) with true by lia]; reflexivity.
+  rewrite ?gtb_ltb, ?geb_leb.
+  (* every path through the guards of the source, each closed by linear arithmetic over the comparisons *)
+  repeat match goal with
+         | |- context [if ?c then _ else _] => destruct c eqn:?
+         end;
+  unfold two64 in *; Z.div_mod_to_equations; lia.
 Qed.
 
 (* TIE: Params_Validate *)
